@@ -302,8 +302,91 @@ fn check(p: &Pos, n: i128, w: u8, ctx: &mut Ctx) -> CaseResult {
     }
 }
 
+/// The number a `Value` denotes when it is an integer or a bignum tag over a byte string.
+fn number_of(v: &coset::cbor::value::Value) -> Option<i128> {
+    use coset::cbor::value::Value;
+    match v {
+        Value::Integer(i) => Some(i128::from(*i)),
+        Value::Tag(t @ (2 | 3), inner) => match inner.as_ref() {
+            Value::Bytes(b) if b.len() <= 16 => {
+                let m = b.iter().fold(0u128, |a, x| (a << 8) | *x as u128);
+                if m > u64::MAX as u128 {
+                    return None;
+                }
+                Some(if *t == 2 { m as i128 } else { -1 - m as i128 })
+            }
+            _ => None,
+        },
+        _ => None,
+    }
+}
+
+/// Uninterpreted integers handed over at the `Value` level in the spelling the byte parser never
+/// yields — a bignum tag over a short byte string — bare, in an array and in a map, as the value
+/// of an extra parameter of a key, a header and a claims set: whatever the crate does with the value
+/// (keep it, pass it through `canonicalize`, convert it back to a `Value`), it denotes the same number.
+fn value_level(n: i128) -> CaseResult {
+    use coset::cbor::value::Value;
+    use coset::{AsCborValue, CborOrdering};
+    let (tag, m) = if n >= 0 { (2u64, n as u128) } else { (3u64, (-1 - n) as u128) };
+    let mut be = m.to_be_bytes().to_vec();
+    while be.len() > 1 && be[0] == 0 {
+        be.remove(0);
+    }
+    let big = Value::Tag(tag, Box::new(Value::Bytes(be)));
+    for wrap in 0..3 {
+        let v = match wrap {
+            0 => big.clone(),
+            1 => Value::Array(vec![Value::Null, big.clone()]),
+            _ => Value::Map(vec![(Value::from(0), big.clone())]),
+        };
+        let unwrap = |x: &Value| -> Option<i128> {
+            match (wrap, x) {
+                (0, x) => number_of(x),
+                (1, Value::Array(a)) => a.get(1).and_then(number_of),
+                (2, Value::Map(m)) => m.first().and_then(|(_, x)| number_of(x)),
+                _ => None,
+            }
+        };
+        let same_number = |what: &str, x: &Value| -> CaseResult {
+            match unwrap(x) {
+                Some(k) if k == n => Ok(()),
+                Some(k) => Err(format!("{}: an uninterpreted value denoting {} (bignum tag, shape {}) became {}", what, n, wrap, k)),
+                None => Err(format!("{}: an uninterpreted value denoting {} (bignum tag, shape {}) became {:?}", what, n, wrap, x)),
+            }
+        };
+        // key: struct literal, canonicalised under both orderings, converted back
+        for o in [CborOrdering::Lexicographic, CborOrdering::LengthFirstLexicographic] {
+            let mut k = CoseKey { kty: coset::KeyType::Assigned(iana::KeyType::Symmetric), params: vec![(Label::Int(-70000), v.clone()), (Label::Int(-1), Value::Bytes(vec![1]))], ..Default::default() };
+            k.canonicalize(o);
+            let p = k.params.iter().find(|(l, _)| *l == Label::Int(-70000)).ok_or("canonicalize lost a parameter")?;
+            same_number("CoseKey::canonicalize", &p.1)?;
+            if let Ok(Value::Map(m)) = k.to_cbor_value() {
+                let e = m.iter().find(|(l, _)| *l == Value::from(-70000)).ok_or("to_cbor_value lost a parameter")?;
+                same_number("CoseKey::canonicalize + to_cbor_value", &e.1)?;
+            }
+        }
+        // key, header, claims set: Value-level decode, then back
+        let km = Value::Map(vec![(Value::from(1), Value::from(4)), (Value::from(-70000), v.clone())]);
+        if let Ok(k) = CoseKey::from_cbor_value(km) {
+            same_number("CoseKey::from_cbor_value", &k.params.first().ok_or("parameter lost")?.1)?;
+        }
+        if let Ok(h) = Header::from_cbor_value(Value::Map(vec![(Value::from(100), v.clone())])) {
+            same_number("Header::from_cbor_value", &h.rest.first().ok_or("parameter lost")?.1)?;
+            if let Ok(Value::Map(m)) = h.to_cbor_value() {
+                same_number("Header::to_cbor_value", &m.first().ok_or("parameter lost")?.1)?;
+            }
+        }
+        if let Ok(c) = ClaimsSet::from_cbor_value(Value::Map(vec![(Value::from(-70000), v.clone())])) {
+            same_number("ClaimsSet::from_cbor_value", &c.rest.first().ok_or("claim lost")?.1)?;
+        }
+    }
+    Ok(())
+}
+
 /// Direct field checks for positions whose decoded field is public.
 fn direct(n: i128) -> CaseResult {
+    value_level(n)?;
     let b = encode(&Item::Int(n));
     if let Ok(v) = i64::try_from(n) {
         match Label::from_slice(&b) {
